@@ -1,6 +1,6 @@
 #!/usr/bin/env python3
 """Run checks against a seeded change kept under /verif/seeded/<id>/ (patch.diff):
-   ./tools_seeded.py <seeded-id> [PROP ...]      (default: the property named in meta.json)
+   ./tools_seeded.py <seeded-id>|--all [PROP ...]      (default: the property named in meta.json)
 applies the patch to /repo's working tree (git apply), runs the quick tier of the checks, undoes it
 (git checkout -- .) and appends the outcome to seeded/<id>/runs.jsonl."""
 import json, os, subprocess, sys, time
@@ -11,6 +11,13 @@ def sh(cmd):
     return subprocess.run(cmd, shell=True, stdout=subprocess.PIPE, stderr=subprocess.STDOUT)
 
 def main():
+    if sys.argv[1] == "--all":
+        rc = 0
+        for sid in sorted(os.listdir(os.path.join(HERE, "seeded"))):
+            if os.path.exists(os.path.join(HERE, "seeded", sid, "meta.json")):
+                r = subprocess.run([sys.argv[0], sid] + sys.argv[2:])
+                rc = rc or r.returncode
+        sys.exit(rc)
     sid = sys.argv[1]
     d = os.path.join(HERE, "seeded", sid)
     meta = json.load(open(os.path.join(d, "meta.json")))
